@@ -14,6 +14,20 @@ Oracles (mc/refmodels/semigroup.py, numpy/scipy only):
    generator  Lmat = -i[H,.] + R   (R = 4-index tensor, or GKSL sum built from the operators)
    scheme     poly[i]  = T_4(Lmat*step/Nd)^(Nd*i)      (rounding tolerance)
    exact      exact[i] = expm(Lmat*t_i)                (truncation bound of DESIGN 1.5)
+
+Clauses -> violation keys
+   U(0)=1                               identity/{all,jit}                      exact
+   U(t_i+t_j)=U(t_i)U(t_j), all pairs   semigroup/all                           R*growth
+   trace, Hermiticity at every time     trace/.., hermiticity/..                R
+   U(t_i):E_nm = propagate(E_nm)(t_i)   propagate/same-dense/{Nref,fine-axis}/<form>   R
+                                        propagate/other-dense/<form>            T (both bounds)
+   observation points apply()/at()      apply/<calling form>/{differs,raises-<Type>},
+                                        apply/grid-time-located-one-index-low   exact
+   jit after k steps = all at index k   jit/save=<F|T>/{first,later}-step-differs-from-all,
+                                        jit/save=T/saved-history-differs-from-all, jit/../now-counter
+   mixed save words                     jit/mixed-save/accepted-but-wrong (raising = refusal)
+   dense N -> 2N                        refinement/doubling-exceeds-truncation-bound    T
+   absolute oracles on both modes       scheme-reference/<mode>/<form> (R), exponential/<mode>/<form> (T)
 """
 import numpy
 
